@@ -23,7 +23,7 @@ from vlib import cb, cl, cln, cn, coq_eval_bools, coq_eval_print, exc_kind, load
 
 IMPORTS = ("From Coq Require Import Qcanon.\nFrom PV Require Import C05.Model C05.Spec.\n"
            "Local Open Scope nat_scope.\n")
-EPS = Fraction(1, 10 ** 9)
+EPS = Fraction(1, 2 ** 30)
 NEG = "-inf"
 THEOREMS = ["c05_pbs_exact_when_unpruned", "c05_pbs_le_exact", "c05_prefix_matrix_invariant",
             "c05_valid_prefixes_distinct_blank_free_bounded", "c05_sorted_by_mass",
